@@ -4,6 +4,7 @@ import (
 	"fmt"
 	"go/ast"
 	"go/parser"
+	"go/printer"
 	"go/token"
 	"os"
 	"path/filepath"
@@ -275,6 +276,485 @@ func handlerStage(o *c.Out) {
 		if err != nil {
 			impl = "extract-failed"
 		}
-		o.Case("handler name="+h.fn, impl)
+		o.Case("handler name="+h.fn, "paths:"+h.fn+":"+impl)
 	}
+	flowStage(o, repo)
+}
+
+// ---------------------------------------------------------------- authorization flow tables
+//
+// `flow fn=<name>`: the statement skeleton of the functions of authority/authorize.go that the
+// model's `authorize` mirrors, in canonical text:
+//   C(recv.Method)   a call on a / p / tok / jose; `!` appended when its error is tested by the
+//                    directly following (or enclosing) `if err != nil { …; return }`
+//   I[cond]{…}E{…}   an if statement that is not such an error guard, with its condition as source text
+//   S[tag]{case x:…|…} a switch
+//   R / R(calls)     a return (with the calls evaluated in its results)
+// `methods type=<T>`: which of the six Authorize* methods the provisioner type declares itself
+// (the rest come from the embedded *base and refuse).
+
+var flowFuncs = []string{"Authorize", "authorizeSign", "authorizeRevoke", "authorizeSSHSign", "authorizeSSHRenew", "authorizeSSHRekey",
+	"authorizeSSHRevoke", "authorizeToken", "getProvisionerFromToken", "generateProvisionerConfig"}
+
+// file of authority/ each skeleton is read from (default authorize.go)
+var flowFile = map[string]string{"generateProvisionerConfig": "provisioners.go"}
+
+var provTypes = []struct{ file, typ string }{
+	{"jwk.go", "JWK"}, {"x5c.go", "X5C"}, {"sshpop.go", "SSHPOP"}, {"oidc.go", "OIDC"}, {"k8sSA.go", "K8sSA"}, {"nebula.go", "Nebula"},
+	{"acme.go", "ACME"}, {"scep.go", "SCEP"}, {"aws.go", "AWS"}, {"gcp.go", "GCP"}, {"azure.go", "Azure"},
+}
+
+type flower struct{ fset *token.FileSet }
+
+func (f *flower) text(n ast.Node) string {
+	var sb strings.Builder
+	printer.Fprint(&sb, f.fset, n)
+	return strings.Join(strings.Fields(sb.String()), " ")
+}
+
+var flowRecv = map[string]bool{"a": true, "p": true, "tok": true, "jose": true}
+
+func (f *flower) calls(n ast.Node) []string {
+	var out []string
+	if n == nil {
+		return nil
+	}
+	ast.Inspect(n, func(x ast.Node) bool {
+		if ce, ok := x.(*ast.CallExpr); ok {
+			for _, a := range ce.Args {
+				out = append(out, f.calls(a)...)
+			}
+			if sel, ok := ce.Fun.(*ast.SelectorExpr); ok {
+				if id, ok := sel.X.(*ast.Ident); ok && flowRecv[id.Name] {
+					out = append(out, id.Name+"."+sel.Sel.Name)
+				}
+			}
+			return false
+		}
+		return true
+	})
+	return out
+}
+
+func endsInReturn(b *ast.BlockStmt) bool {
+	if b == nil || len(b.List) == 0 {
+		return false
+	}
+	_, ok := b.List[len(b.List)-1].(*ast.ReturnStmt)
+	return ok
+}
+
+// fnode is one item of a function skeleton.
+type fnode struct {
+	kind   string // call | cond | ret | sw | unknown
+	name   string // call: recv.Method; cond: condition text; sw: tag text; unknown: what
+	guard  string // call: "" | "!" | "?"
+	body   []fnode
+	els    []fnode
+	calls  []string // ret
+	labels []string // sw: case labels
+	cases  [][]fnode
+}
+
+func (f *flower) block(stmts []ast.Stmt) []fnode {
+	var items []fnode
+	addCalls := func(cs []string, g string) {
+		for j, cn := range cs {
+			n := fnode{kind: "call", name: cn}
+			if j == len(cs)-1 {
+				n.guard = g
+			}
+			items = append(items, n)
+		}
+	}
+	for i := 0; i < len(stmts); i++ {
+		switch v := stmts[i].(type) {
+		case *ast.ReturnStmt:
+			var cs []string
+			for _, r := range v.Results {
+				cs = append(cs, f.calls(r)...)
+			}
+			items = append(items, fnode{kind: "ret", calls: cs})
+		case *ast.IfStmt:
+			initCalls := f.calls(v.Init)
+			if len(initCalls) > 0 && isErrNotNil(v.Cond) && v.Else == nil {
+				// `if err := x.F(); err != nil { …return }`
+				g := "?"
+				if endsInReturn(v.Body) && len(f.calls(v.Body)) == 0 {
+					g = "!"
+				}
+				addCalls(initCalls, g)
+				continue
+			}
+			n := fnode{kind: "cond", name: f.text(v.Cond), body: f.block(v.Body.List)}
+			if v.Init != nil {
+				n.name = f.text(v.Init) + "; " + f.text(v.Cond)
+			}
+			switch e := v.Else.(type) {
+			case *ast.BlockStmt:
+				n.els = f.block(e.List)
+			case *ast.IfStmt:
+				n.els = f.block([]ast.Stmt{e})
+			}
+			items = append(items, n)
+		case *ast.SwitchStmt:
+			n := fnode{kind: "sw"}
+			if v.Init != nil {
+				n.name = f.text(v.Init) + "; "
+			}
+			if v.Tag != nil {
+				n.name += f.text(v.Tag)
+			}
+			for _, cc := range v.Body.List {
+				cl := cc.(*ast.CaseClause)
+				label := "default"
+				if len(cl.List) > 0 {
+					var ls []string
+					for _, e := range cl.List {
+						ls = append(ls, f.text(e))
+					}
+					label = "case " + strings.Join(ls, ", ")
+				}
+				n.labels = append(n.labels, label)
+				n.cases = append(n.cases, f.block(cl.Body))
+			}
+			items = append(items, n)
+		case *ast.BlockStmt:
+			items = append(items, f.block(v.List)...)
+		case *ast.ForStmt, *ast.RangeStmt, *ast.TypeSwitchStmt, *ast.SelectStmt, *ast.GoStmt, *ast.DeferStmt:
+			if cs := f.calls(v); len(cs) > 0 {
+				items = append(items, fnode{kind: "unknown", name: fmt.Sprintf("%T(%s)", v, strings.Join(cs, ","))})
+			}
+		default:
+			cs := f.calls(v)
+			if len(cs) == 0 {
+				continue
+			}
+			// guarded by the directly following `if err != nil { …return }` ?
+			g := ""
+			if i+1 < len(stmts) {
+				if nx, ok := stmts[i+1].(*ast.IfStmt); ok && nx.Init == nil && isErrNotNil(nx.Cond) && nx.Else == nil {
+					if endsInReturn(nx.Body) && len(f.calls(nx.Body)) == 0 {
+						g = "!"
+					} else {
+						g = "?"
+					}
+					i++
+				}
+			}
+			addCalls(cs, g)
+		}
+	}
+	return items
+}
+
+// canonical text of a skeleton
+func renderFlow(items []fnode) string {
+	out := make([]string, len(items))
+	for i, n := range items {
+		switch n.kind {
+		case "call":
+			out[i] = "C(" + n.name + ")" + n.guard
+		case "ret":
+			out[i] = "R"
+			if len(n.calls) > 0 {
+				out[i] = "R(" + strings.Join(n.calls, ",") + ")"
+			}
+		case "cond":
+			out[i] = "I[" + n.name + "]{" + renderFlow(n.body) + "}"
+			if n.els != nil {
+				out[i] += "E{" + renderFlow(n.els) + "}"
+			}
+		case "sw":
+			cs := make([]string, len(n.labels))
+			for j := range n.labels {
+				cs[j] = n.labels[j] + ":" + renderFlow(n.cases[j])
+			}
+			out[i] = "S[" + n.name + "]{" + strings.Join(cs, ";;") + "}"
+		default:
+			out[i] = "X:" + n.name
+		}
+	}
+	return strings.Join(out, ",")
+}
+
+// the same skeleton as a Lean literal of type `List Fl` (used once, to write the model's table)
+func leanFlow(items []fnode) string {
+	q := func(s string) string { return "\"" + strings.ReplaceAll(strings.ReplaceAll(s, "\\", "\\\\"), "\"", "\\\"") + "\"" }
+	out := make([]string, len(items))
+	for i, n := range items {
+		switch n.kind {
+		case "call":
+			g := map[string]string{"": ".none", "!": ".returns", "?": ".other"}[n.guard]
+			out[i] = ".call " + q(n.name) + " " + g
+		case "ret":
+			cs := make([]string, len(n.calls))
+			for j, x := range n.calls {
+				cs[j] = q(x)
+			}
+			out[i] = ".ret [" + strings.Join(cs, ", ") + "]"
+		case "cond":
+			out[i] = ".cond " + q(n.name) + " " + leanFlow(n.body) + " " + leanFlow(n.els)
+		case "sw":
+			cs := make([]string, len(n.labels))
+			for j := range n.labels {
+				cs[j] = "(" + q(n.labels[j]) + ", " + leanFlow(n.cases[j]) + ")"
+			}
+			out[i] = ".sw " + q(n.name) + " [" + strings.Join(cs, ", ") + "]"
+		default:
+			out[i] = ".unknown " + q(n.name)
+		}
+	}
+	return "[" + strings.Join(out, ", ") + "]"
+}
+
+func flowTree(repo, fn string) ([]fnode, error) {
+	fset := token.NewFileSet()
+	src := "authorize.go"
+	if f, ok := flowFile[fn]; ok {
+		src = f
+	}
+	file, err := parser.ParseFile(fset, filepath.Join(repo, "authority", src), nil, 0)
+	if err != nil {
+		return nil, err
+	}
+	for _, d := range file.Decls {
+		fd, ok := d.(*ast.FuncDecl)
+		if ok && fd.Recv != nil && fd.Name.Name == fn && fd.Body != nil {
+			return (&flower{fset}).block(fd.Body.List), nil
+		}
+	}
+	return nil, fmt.Errorf("%s not found", fn)
+}
+
+func flowOf(repo, fn string) (string, error) {
+	t, err := flowTree(repo, fn)
+	if err != nil {
+		return "", err
+	}
+	return renderFlow(t), nil
+}
+
+var authorizeMethods = map[string]bool{"AuthorizeSign": true, "AuthorizeRevoke": true, "AuthorizeSSHSign": true,
+	"AuthorizeSSHRenew": true, "AuthorizeSSHRekey": true, "AuthorizeSSHRevoke": true}
+
+func methodsOf(repo, file, typ string) (string, error) {
+	fset := token.NewFileSet()
+	f, err := parser.ParseFile(fset, filepath.Join(repo, "authority/provisioner", file), nil, 0)
+	if err != nil {
+		return "", err
+	}
+	var ms []string
+	embedsBase, found := false, false
+	for _, d := range f.Decls {
+		switch v := d.(type) {
+		case *ast.FuncDecl:
+			if v.Recv == nil || len(v.Recv.List) != 1 || !authorizeMethods[v.Name.Name] {
+				continue
+			}
+			t := v.Recv.List[0].Type
+			if st, ok := t.(*ast.StarExpr); ok {
+				t = st.X
+			}
+			if id, ok := t.(*ast.Ident); ok && id.Name == typ {
+				ms = append(ms, v.Name.Name)
+			}
+		case *ast.GenDecl:
+			for _, sp := range v.Specs {
+				ts, ok := sp.(*ast.TypeSpec)
+				if !ok || ts.Name.Name != typ {
+					continue
+				}
+				found = true
+				if st, ok := ts.Type.(*ast.StructType); ok {
+					for _, fl := range st.Fields.List {
+						if len(fl.Names) == 0 {
+							if se, ok := fl.Type.(*ast.StarExpr); ok {
+								if id, ok := se.X.(*ast.Ident); ok && id.Name == "base" {
+									embedsBase = true
+								}
+							}
+						}
+					}
+				}
+			}
+		}
+	}
+	if !found {
+		return "", fmt.Errorf("type %s not found in %s", typ, file)
+	}
+	sort.Strings(ms)
+	s := strings.Join(ms, ",")
+	if embedsBase {
+		s += ";base"
+	}
+	return s, nil
+}
+
+// leanTables prints the Lean source of the two tables (run by hand when the model is updated).
+func leanTables(repo string) {
+	fmt.Println("def flows : List (String × List Fl) :=\n  [")
+	for i, fn := range flowFuncs {
+		t, err := flowTree(repo, fn)
+		if err != nil {
+			panic(err)
+		}
+		sep := ","
+		if i == len(flowFuncs)-1 {
+			sep = " ]"
+		}
+		fmt.Printf("    (\"%s\",\n      %s)%s\n", fn, leanFlow(t), sep)
+	}
+	fmt.Println("\ndef declared : List (String × List String × Bool) :=\n  [")
+	for i, pt := range provTypes {
+		m, err := methodsOf(repo, pt.file, pt.typ)
+		if err != nil {
+			panic(err)
+		}
+		base := strings.HasSuffix(m, ";base")
+		ms := strings.Split(strings.TrimSuffix(m, ";base"), ",")
+		for j := range ms {
+			ms[j] = "\"" + ms[j] + "\""
+		}
+		sep := ","
+		if i == len(provTypes)-1 {
+			sep = " ]"
+		}
+		fmt.Printf("    (\"%s\", [%s], %v)%s\n", pt.typ, strings.Join(ms, ", "), base, sep)
+	}
+}
+
+func flowStage(o *c.Out, repo string) {
+	if impl, err := apiSurface(repo); err == nil {
+		o.Case("apisurface", "apisurface:"+impl)
+	} else {
+		o.Case("apisurface", "extract-failed")
+	}
+	if impl, err := apiRoutes(repo); err == nil {
+		o.Case("routes", "routes:"+impl)
+	} else {
+		o.Case("routes", "extract-failed")
+	}
+	for _, fn := range flowFuncs {
+		impl, err := flowOf(repo, fn)
+		if err != nil {
+			impl = "extract-failed"
+		}
+		o.Case("flow fn="+fn, "flow:"+fn+":"+impl)
+	}
+	for _, pt := range provTypes {
+		impl, err := methodsOf(repo, pt.file, pt.typ)
+		if err != nil {
+			impl = "extract-failed"
+		}
+		o.Case("methods type="+pt.typ, "methods:"+pt.typ+":"+impl)
+	}
+}
+
+// ---------------------------------------------------------------- the signing surface of package api
+//
+// `apisurface`: every function of api/*.go (tests excluded) that calls Authorize on the authority or a
+// method / helper that signs, renews, rekeys or revokes: "<fn>:auth=<0|1>:<effects>" sorted, joined by ";".
+// `routes`: the routes api.Route registers, "<METHOD> <pattern> <handler>" in source order.
+
+var surfaceEffect = regexp.MustCompile(`^(Sign|Renew|Rekey|Revoke)|^renewIdentityCertificate$`)
+
+func apiSurface(repo string) (string, error) {
+	fset := token.NewFileSet()
+	pkgs, err := parser.ParseDir(fset, filepath.Join(repo, "api"), func(fi os.FileInfo) bool { return !strings.HasSuffix(fi.Name(), "_test.go") }, 0)
+	if err != nil {
+		return "", err
+	}
+	var out []string
+	for _, pkg := range pkgs {
+		for _, file := range pkg.Files {
+			for _, d := range file.Decls {
+				fd, ok := d.(*ast.FuncDecl)
+				if !ok || fd.Body == nil {
+					continue
+				}
+				auth := false
+				effs := map[string]bool{}
+				ast.Inspect(fd.Body, func(x ast.Node) bool {
+					ce, ok := x.(*ast.CallExpr)
+					if !ok {
+						return true
+					}
+					name, recv := "", ""
+					switch f := ce.Fun.(type) {
+					case *ast.SelectorExpr:
+						name = f.Sel.Name
+						if id, ok := f.X.(*ast.Ident); ok {
+							recv = id.Name
+						} else {
+							recv = "<expr>"
+						}
+					case *ast.Ident:
+						name = f.Name
+					}
+					switch {
+					case name == "Authorize" && recv != "":
+						auth = true
+					case recv == "provisioner" || recv == "authority" || recv == "errs" || recv == "render" || recv == "read" || recv == "x509" || recv == "ssh":
+					case surfaceEffect.MatchString(name):
+						effs[name] = true
+					}
+					return true
+				})
+				if !auth && len(effs) == 0 {
+					continue
+				}
+				var es []string
+				for e := range effs {
+					es = append(es, e)
+				}
+				sort.Strings(es)
+				name := fd.Name.Name
+				if fd.Recv != nil {
+					name = "(method)" + name
+				}
+				out = append(out, fmt.Sprintf("%s:auth=%s:%s", name, c.B(auth), strings.Join(es, ",")))
+			}
+		}
+	}
+	sort.Strings(out)
+	return strings.Join(out, ";"), nil
+}
+
+func apiRoutes(repo string) (string, error) {
+	fset := token.NewFileSet()
+	file, err := parser.ParseFile(fset, filepath.Join(repo, "api/api.go"), nil, 0)
+	if err != nil {
+		return "", err
+	}
+	var out []string
+	for _, d := range file.Decls {
+		fd, ok := d.(*ast.FuncDecl)
+		if !ok || fd.Name.Name != "Route" || fd.Body == nil {
+			continue
+		}
+		ast.Inspect(fd.Body, func(x ast.Node) bool {
+			ce, ok := x.(*ast.CallExpr)
+			if !ok {
+				return true
+			}
+			sel, ok := ce.Fun.(*ast.SelectorExpr)
+			if !ok || sel.Sel.Name != "MethodFunc" || len(ce.Args) != 3 {
+				return true
+			}
+			m, ok1 := ce.Args[0].(*ast.BasicLit)
+			pat, ok2 := ce.Args[1].(*ast.BasicLit)
+			h, ok3 := ce.Args[2].(*ast.Ident)
+			if ok1 && ok2 && ok3 {
+				out = append(out, strings.Trim(m.Value, `"`)+" "+strings.Trim(pat.Value, `"`)+" "+h.Name)
+			} else {
+				out = append(out, "X:unrecognised-route")
+			}
+			return true
+		})
+	}
+	if len(out) == 0 {
+		return "", fmt.Errorf("api.Route not found")
+	}
+	return strings.Join(out, ";"), nil
 }
